@@ -322,6 +322,53 @@ for rep in range(3):
         return [from_v(r), from_v(r.__dict__['attrs']['mask'])]
     case('_project_one_axis%s.%d.%d' % (ns, axis, nproj), nat_proj, sym_proj, masked_pair=True)
 
+# --- data-dictionary functions (dicts, defaultdict, string keys, sorting) and marginalize
+for rep in range(2):
+    keys = ['chr_1_%d' % rng.randint(1, 60) for _ in range(4)] + ['sc.2_%d' % rng.randint(1, 60) for _ in range(3)] + ['chr_1_33.b']
+    keys = list(dict.fromkeys(keys))
+    cs = rng.randint(7, 40)
+    ddn = {k: {'id': k} for k in keys}
+
+    def nat_frag():
+        return [sorted(c.keys()) for c in Misc.fragment_data_dict(ddn, cs)]
+
+    def sym_frag():
+        r = run1(Executor(), 'dadi/Misc.py', 'fragment_data_dict', [VDict({k: Tm('v:' + k) for k in keys}), cs])
+        return [sorted(c.d.keys()) for c in r.items]
+    count[0] += 1
+    try:
+        a_, b_ = nat_frag(), sym_frag()
+        if a_ != b_:
+            fails.append(('fragment_data_dict', 'E2 %r vs CPython %r' % (b_, a_)))
+    except Exception:
+        import traceback
+        fails.append(('fragment_data_dict', traceback.format_exc()[-500:]))
+
+    snps = {}
+    for i in range(6):
+        seg = rng.choice([('A', 'C'), ('G', 'T'), ('A', 'C', 'G')])
+        og = rng.choice([seg[0], seg[1], '-', 'N', None])
+        info = {'segregating': seg, 'calls': {'P1': (rng.randint(0, 3), rng.randint(0, 3)), 'P2': (rng.randint(0, 2), rng.randint(0, 2))}}
+        if og is not None:
+            info['outgroup_allele'] = og
+        snps['s%d' % i] = info
+
+    def nat_count():
+        return sorted((k, v) for k, v in Misc.count_data_dict(snps, ['P1', 'P2']).items())
+
+    def sym_count():
+        dd = VDict({k: VDict({kk: (VDict(dict(vv)) if isinstance(vv, dict) else vv) for kk, vv in v.items()}) for k, v in snps.items()})
+        r = run1(Executor(), 'dadi/Misc.py', 'count_data_dict', [dd, VList(['P1', 'P2'])])
+        return sorted((k, int(v)) for k, v in r.d.items())
+    count[0] += 1
+    try:
+        a_, b_ = nat_count(), sym_count()
+        if a_ != b_:
+            fails.append(('count_data_dict', 'E2 %r vs CPython %r' % (b_, a_)))
+    except Exception:
+        import traceback
+        fails.append(('count_data_dict', traceback.format_exc()[-500:]))
+
 print('E2-vs-CPython cross-check: %d cases, %d mismatches (seed %d)' % (count[0], len(fails), seed))
 for n_, why in fails:
     print('MISMATCH %s: %s' % (n_, why))
